@@ -169,6 +169,9 @@ func (r *run) formatPlain(fr *frame, verb rune, t types.Type, v value, depth int
 			if i > 0 {
 				parts = append(parts, " ")
 			}
+			if r.fmtPlus {
+				parts = append(parts, ut.Field(i).Name()+":")
+			}
 			parts = append(parts, r.formatNested(fr, verb, ut.Field(i).Type(), s[i], depth+1))
 		}
 		parts = append(parts, "}")
@@ -272,7 +275,14 @@ func (r *run) sprintf(fr *frame, format string, args []value) value {
 			}
 			continue
 		}
+		// fully concrete operand of a basic type without Error/String methods: the real fmt decides
+		if gv, ok := r.concreteBasic(arg); ok && strings.ContainsRune("vdxXobcqstfeEgGU", verb) {
+			parts = append(parts, fmt.Sprintf("%"+flags+string(verb), gv))
+			continue
+		}
+		r.fmtPlus = verb == 'v' && strings.Contains(flags, "+")
 		s := r.formatOne(fr, verb, arg)
+		r.fmtPlus = false
 		// concrete numeric formatting with flags (e.g. %.2f, %02d)
 		if flags != "" {
 			if it, ok := arg.(iface); ok && it.t != nil {
@@ -304,6 +314,61 @@ func (r *run) sprintf(fr *frame, format string, args []value) value {
 		parts = append(parts, "%!(EXTRA)")
 	}
 	return catStr(parts)
+}
+
+// concreteBasic converts a concrete operand of basic type (no Error/String method) to a Go value
+// that the real fmt package formats identically.
+func (r *run) concreteBasic(arg value) (interface{}, bool) {
+	it, ok := arg.(iface)
+	if !ok || it.t == nil {
+		return nil, false
+	}
+	bt, ok := it.t.Underlying().(*types.Basic)
+	if !ok {
+		return nil, false
+	}
+	for _, t := range []types.Type{it.t, types.NewPointer(it.t)} {
+		ms := r.e.prog.MethodSets.MethodSet(t)
+		for i := 0; i < ms.Len(); i++ {
+			if n := ms.At(i).Obj().Name(); n == "Error" || n == "String" || n == "Format" || n == "GoString" {
+				return nil, false
+			}
+		}
+	}
+	switch x := it.v.(type) {
+	case int64:
+		switch bt.Kind() {
+		case types.Int8:
+			return int8(x), true
+		case types.Int16:
+			return int16(x), true
+		case types.Int32:
+			return int32(x), true
+		}
+		return x, true
+	case uint64:
+		switch bt.Kind() {
+		case types.Uint8:
+			return uint8(x), true
+		case types.Uint16:
+			return uint16(x), true
+		case types.Uint32:
+			return uint32(x), true
+		case types.Uintptr:
+			return uintptr(x), true
+		}
+		return x, true
+	case float64:
+		if bt.Kind() == types.Float32 {
+			return float32(x), true
+		}
+		return x, true
+	case string:
+		return x, true
+	case bool:
+		return x, true
+	}
+	return nil, false
 }
 
 func variadic(v value) []value {
